@@ -210,7 +210,19 @@ def has_path(nn, term, assign, L):
     return term[1] in cur
 
 
-def _aut_cases(nn, alph, Ls, terms, parallel=False):
+# automaton node ids: consecutive from 0, or scrambled / negative ones (what set iteration order and id-keyed lookups see)
+ID_SETS = {'plain': None, 'scrambled': [10, 3, 25, 17], 'negative': [1, 0, -1, -2]}
+
+
+def _aut_cases(nn, alph, Ls, terms, parallel=False, idsets=('plain',)):
+    for ids in idsets:
+        for case in _aut_cases_plain(nn, alph, Ls, terms, parallel):
+            if ids != 'plain':
+                case['ids'] = ids
+            yield case
+
+
+def _aut_cases_plain(nn, alph, Ls, terms, parallel=False):
     pairs = [(s, t) for s in range(nn) for t in range(nn)]
     opts = [[k] for k in alph if k != 'none'] + [[]]
     if parallel:
@@ -229,11 +241,14 @@ def run_aut_case(case, ctx):
     if not has_path(nn, term, assign, L):
         raise OutOfDomain()
     qn = [0, 0, 1, 0][:nn]
-    nodes = [AutOpNode(i, [], [], qn[i]) for i in range(nn)]
-    aut = AutOp(nodes, [], term)
+    ids = ID_SETS[case.get('ids', 'plain')] or list(range(nn))
+    if 'ids' in case:
+        ctx.cls('node_ids:' + case['ids'])
+    nodes = [AutOpNode(ids[i], [], [], qn[i]) for i in range(nn)]
+    aut = AutOp(nodes, [], [ids[term[0]], ids[term[1]]])
     for eid, (s, t, kind) in enumerate(assign):
         opics, active = edge_spec(kind)
-        aut.add_connect_edge(AutOpEdge(eid, [s, t], opics, active))
+        aut.add_connect_edge(AutOpEdge(eid if 'ids' not in case else 40 - 3 * eid, [ids[s], ids[t]], opics, active))
     graph = OpGraph.from_automaton(aut, L)
     ctx.calls += 1
     ref = automaton_poly(nn, term, assign, L)
@@ -300,12 +315,19 @@ def spaces(tier, seed):
                   bounds={'height<=': 1, 'L': [2], 'coeffs': [1.0, '1j', '-1j'], 'what': 'complex coefficients: sums that cancel exactly or stay complex'}),
             Space('trees_complex', core.chunked(_tree_cases(2, [2, 3], ['(0.5-0.5j)']), 500), run_case=run_tree_case, sig=sig,
                   bounds={'height<=': 2, 'L': [2, 3], 'coeffs': ['(0.5-0.5j)']}),
-            Space('automata2', core.chunked(_aut_cases(2, EDGE_ALPH, [1, 2, 3, 4], [[0, 1], [0, 0]], parallel=True), 300), run_case=run_aut_case, sig=sig,
-                  bounds={'nodes': 2, 'edge_alphabet': EDGE_ALPH + ['a+cb parallel', 'a+a parallel'], 'L': [1, 2, 3, 4], 'terminals': [[0, 1], [0, 0]]}),
+            Space('automata2', core.chunked(_aut_cases(2, EDGE_ALPH, [1, 2, 3, 4], [[0, 1], [0, 0]], parallel=True, idsets=list(ID_SETS)), 300), run_case=run_aut_case, sig=sig,
+                  bounds={'nodes': 2, 'edge_alphabet': EDGE_ALPH + ['a+cb parallel', 'a+a parallel'], 'L': [1, 2, 3, 4], 'terminals': [[0, 1], [0, 0]],
+                          'node_ids': ID_SETS}),
             Space('automata3', core.chunked(_aut_cases(3, ['none', 'a', 'act'], [1, 2, 3, 4], [[0, 1]]), 500), run_case=run_aut_case, sig=sig,
                   bounds={'nodes': 3, 'edge_alphabet': ['none', 'a', 'act'], 'L': [1, 2, 3, 4]}),
             Space('automata3_opx', core.chunked(_aut_cases(3, ['none', 'cb', 'opx'], [2, 3], [[0, 1]]), 500), run_case=run_aut_case, sig=sig,
                   bounds={'nodes': 3, 'edge_alphabet': ['none', 'cb', 'opx'], 'L': [2, 3]}),
+            Space('automata3_ids', core.chunked(_aut_cases(3, ['none', 'a', 'cb'], [2, 3], [[0, 1]], idsets=['scrambled', 'negative']), 500), run_case=run_aut_case, sig=sig,
+                  bounds={'nodes': 3, 'edge_alphabet': ['none', 'a', 'cb'], 'L': [2, 3], 'node_ids': ['scrambled', 'negative']}),
+            Space('tree_pairs_zero_coeff', core.chunked(_pair_cases([2], [1.0, 0.0]), 500), run_case=run_tree_case, sig=sig,
+                  bounds={'height<=': 1, 'L': [2], 'coeffs': [1.0, 0.0], 'what': 'tree edges with coefficient exactly zero (also all children of a node)'}),
+            Space('trees_zero_coeff', core.chunked(_tree_cases(2, [2, 3], [0.0]), 500), run_case=run_tree_case, sig=sig,
+                  bounds={'height<=': 2, 'L': [2, 3], 'coeffs': [0.0]}),
         ]
     else:
         sp = [
@@ -320,8 +342,14 @@ def spaces(tier, seed):
                   bounds={'height<=': 1, 'L': [2, 3], 'coeffs': [1.0, '1j', '-1j'], 'what': 'complex coefficients: sums that cancel exactly or stay complex'}),
             Space('trees_complex', core.chunked(_tree_cases(2, [2, 3], ['(0.5-0.5j)']), 500), run_case=run_tree_case, sig=sig,
                   bounds={'height<=': 2, 'L': [2, 3], 'coeffs': ['(0.5-0.5j)']}),
-            Space('automata2', core.chunked(_aut_cases(2, EDGE_ALPH, [1, 2, 3, 4, 5], [[0, 1], [0, 0]], parallel=True), 300), run_case=run_aut_case, sig=sig,
-                  bounds={'nodes': 2, 'edge_alphabet': EDGE_ALPH, 'L': [1, 2, 3, 4, 5], 'terminals': [[0, 1], [0, 0]]}),
+            Space('automata2', core.chunked(_aut_cases(2, EDGE_ALPH, [1, 2, 3, 4, 5], [[0, 1], [0, 0]], parallel=True, idsets=list(ID_SETS)), 300), run_case=run_aut_case, sig=sig,
+                  bounds={'nodes': 2, 'edge_alphabet': EDGE_ALPH, 'L': [1, 2, 3, 4, 5], 'terminals': [[0, 1], [0, 0]], 'node_ids': ID_SETS}),
+            Space('automata3_ids', core.chunked(_aut_cases(3, ['none', 'a', 'cb', 'act'], [2, 3], [[0, 1]], idsets=['scrambled', 'negative']), 2000), run_case=run_aut_case, sig=sig,
+                  bounds={'nodes': 3, 'edge_alphabet': ['none', 'a', 'cb', 'act'], 'L': [2, 3], 'node_ids': ['scrambled', 'negative']}),
+            Space('tree_pairs_zero_coeff', core.chunked(_pair_cases([2, 3], [1.0, 0.0]), 500), run_case=run_tree_case, sig=sig,
+                  bounds={'height<=': 1, 'L': [2, 3], 'coeffs': [1.0, 0.0], 'what': 'tree edges with coefficient exactly zero (also all children of a node)'}),
+            Space('trees_zero_coeff', core.chunked(_tree_cases(2, [2, 3], [0.0, 2.0]), 500), run_case=run_tree_case, sig=sig,
+                  bounds={'height<=': 2, 'L': [2, 3], 'coeffs': [0.0, 2.0]}),
             Space('automata3', core.chunked(_aut_cases(3, EDGE_ALPH, [1, 2, 3], [[0, 1]]), 2000), run_case=run_aut_case, sig=sig,
                   bounds={'nodes': 3, 'edge_alphabet': EDGE_ALPH, 'L': [1, 2, 3]}),
         ]
